@@ -121,7 +121,8 @@ def _valid_text(rng, cls):
     if cls in ("Address",):
         return grammar.gen_addr(rng, platform)["text"]
     if cls == "AddressAg":
-        return rng.choice(["host 10.0.0.1", "10.0.0.0 255.255.255.0", "10.0.0.0/24", "10 10.0.0.0 0.0.0.255", "group-object G"])
+        return rng.choice(["host 10.0.0.1", "10.0.0.0 255.255.255.0", "10.0.0.0/24", "10 10.0.0.0 0.0.0.255", "group-object G",
+                           "range 10.0.0.1 10.0.0.9", "description only"])
     if cls in ("AddrGroup", "addrgroups"):
         head = rng.choice(["object-group network G1", "object-group ip address G1"])
         return head + "\n" + "\n".join(" " + rng.choice(["host 10.0.0.1", "10.0.0.0 255.255.255.0", "10.0.0.0/24", "10 host 1.1.1.1"])
@@ -275,6 +276,22 @@ DETERMINISTIC = [
      "kwargs": {"platform": "cisco_ios"}},
     {"cls": "addrgroups", "text": "object-group network G\n group-object H\nobject-group network H\n group-object G\n", "kwargs": {"platform": "ios"}},
     {"cls": "acls", "text": "object-group ip address G\n 10 group-object G\nip access-list A\n permit ip addrgroup G any\n", "kwargs": {"platform": "nxos"}},
+    # groups made of lines the group parser does not take (range members), alone and mixed
+    {"cls": "addrgroups", "text": "object-group network G\n range 10.0.0.1 10.0.0.5\n", "kwargs": {"platform": "ios"}},
+    {"cls": "addrgroups", "text": "object-group network G\n description x\n range 10.0.0.1 10.0.0.5\n range 10.0.1.1 10.0.1.5\n",
+     "kwargs": {"platform": "ios"}},
+    {"cls": "acls", "text": "object-group network G\n range 10.0.0.1 10.0.0.5\nip access-list extended A\n permit ip object-group G any\n",
+     "kwargs": {"platform": "ios"}},
+    {"cls": "AddrGroup", "text": "object-group ip address G\n range 10.0.0.1 10.0.0.5", "kwargs": {"platform": "nxos"}},
+    # one group name defined twice (same header twice; both header forms; headers that differ in inner blanks), used by an ACE
+    {"cls": "acls", "text": "object-group network G\n host 10.0.0.1\nobject-group network G\n host 10.0.0.2\n"
+                            "ip access-list extended A\n permit ip object-group G any\n", "kwargs": {"platform": "ios"}},
+    {"cls": "acls", "text": "object-group network G\n host 10.0.0.1\nobject-group ip address G\n host 10.0.0.2\n"
+                            "ip access-list extended A\n permit ip any object-group G\n", "kwargs": {"platform": "ios"}},
+    {"cls": "acls", "text": "object-group ip address G\n 10 host 10.0.0.1\nobject-group ip  address G\n 10 host 10.0.0.2\n"
+                            "ip access-list A\n permit ip addrgroup G any\n", "kwargs": {"platform": "nxos"}},
+    {"cls": "aces", "text": "object-group network G\n host 10.0.0.1\nobject-group network  G\n host 10.0.0.2\n"
+                            "ip access-list extended A\n permit ip object-group G object-group G\n", "kwargs": {"platform": "ios"}},
     {"cls": "Ace", "text": "permit tcp any any eq 80", "kwargs": {"platform": "cisco_asa"}},
     {"cls": "Acl", "text": "ip access-list extended A\n permit icmp any any", "kwargs": {"platform": "cisco_asa"}},
     {"cls": "Port", "text": "range 4294967296 1284", "kwargs": {"platform": "ios", "protocol": "tcp"}},
